@@ -14,7 +14,10 @@ BOUNDARY_DAYS = [
     (2024, 3, 1), (2024, 3, 5), (2023, 3, 3), (2024, 1, 1), (2024, 1, 6), (2023, 12, 31), (2000, 3, 2), (1900, 3, 4),
     (2024, 2, 29), (2024, 7, 7), (2024, 8, 1), (2024, 5, 3), (2100, 3, 1), (2024, 10, 10), (1999, 1, 2), (2024, 12, 25),
 ]
-PLAIN = ["a.zo", "b.zo", "dir/c.zo", "work/proj/d.zo", "e", "f.txt", "notes/2024.zo", "x y.zo", "-dash.zo"]
+PLAIN = ["a.zo", "b.zo", "dir/c.zo", "work/proj/d.zo", "e", "f.txt", "notes/2024.zo", "x y.zo", "-dash.zo",
+         # names that look like glob patterns are names (sibling files that such a pattern would match exist in EDIT_ZDIR)
+         "ideas[1].zo", "dir/q[12].zo", "what?.zo", "a*.zo"]
+EDIT_ZDIR = Path("/zz")   # body() replaces it by a real directory holding ideas1.zo, dir/q1.zo, dir/q2.zo, whatx.zo, a.zo, ab.zo, ...
 PATTERNS = [
     "{yyyymmdd[$]}.zo", "log/{yyyymmdd[$]}.zo", "{days[$]:%Y}/{days[$]:%Y%m%d}.zo", "{days[$].year}/{yyyymmdd[$]}.zo",
     "{days[$]:%Y-%m-%d}", "{days[$]:%y%m%d}.zo", "m{days[$].month}/d{days[$].day}.zo", "{{lit}}{yyyymmdd[$]}", "w{days[$]:%m}.zo",
@@ -90,11 +93,11 @@ def impl(case):
                 RE.init_from_template = lambda *a, **k: None
                 try:
                     with clack_envvars_set("zorg", [EditConfig, TemplateRenderConfig]):
-                        cfg = EditConfig(command="edit", zo_paths=[Path(a) for a in case["args"]], file_group_map=case["map"], zettel_dir=Path("/zz"))
+                        cfg = EditConfig(command="edit", zo_paths=[Path(a) for a in case["args"]], file_group_map=case["map"], zettel_dir=EDIT_ZDIR)
                         RE.run_edit(cfg)
                 finally:
                     RE.messagebus.handle, RE.init_from_template = o_handle, o_init
-                want = zc.bulk_prepend_zdir(Path("/zz"), r)
+                want = zc.bulk_prepend_zdir(EDIT_ZDIR, r)
                 if [str(p) for p in got] != [str(p) for p in want]:
                     return {"err": "edit_paths", "got": [str(p) for p in got], "want": [str(p) for p in want]}
             return {"ok": [str(p) for p in r]}
@@ -146,6 +149,11 @@ def body(ctx: C.Ctx, proof: C.ProofStatus) -> C.Result:
         for f in sorted(corpus_dir.glob("*.json")):
             cases.append(json.loads(f.read_text()))
     cases += [gen_case(rng) for _ in range(n)]
+    global EDIT_ZDIR
+    EDIT_ZDIR = ctx.tmp / "editz"
+    for rel in ("ideas1.zo", "dir/q1.zo", "dir/q2.zo", "whatx.zo", "a.zo", "ab.zo", "abc.zo", "b.zo", "dir/c.zo"):
+        (EDIT_ZDIR / rel).parent.mkdir(parents=True, exist_ok=True)
+        (EDIT_ZDIR / rel).write_text("# page\n")
     reqs = []
     outs = []
     for case in cases:
@@ -239,7 +247,7 @@ def body(ctx: C.Ctx, proof: C.ProofStatus) -> C.Result:
 RULE = (
     "random acyclic group maps (1-6 groups, nesting by index order, shared and repeated sub-groups, missing groups, "
     "date patterns yyyymmdd[i] / days[i]:%Y.. / days[i].attr) x argument lists x frozen 'today' on month/year/leap "
-    "boundaries, plus the real clock under TZ=LINT-14 and TZ=AOE12 (local day != UTC day in at least one); impl vs Lean model vs independent Python reading of the statement; non-trivial = has a group argument"
+    "boundaries, names that look like glob patterns (run_edit on a real directory holding files they would match), plus the real clock under TZ=LINT-14 and TZ=AOE12 (local day != UTC day in at least one); impl vs Lean model vs independent Python reading of the statement; non-trivial = has a group argument"
 )
 ASSUME = [
     "str.format / strftime are modelled for the fragment {yyyymmdd[i]}, {days[i]:%Y%m%d%y}, {days[i].year|month|day}, {{ }}",
